@@ -22,7 +22,7 @@ RULE = ("Random interleavings (5-80 operations) of quotes and discontinuations o
         "contains a discontinuation followed by a quote for the same contract, or a chain-addressed quote after a roll.")
 ASSUMPTIONS = ["a quote is 'accepted' iff its book is alive; rejected quotes must not be appended to the history"]
 REQUIRED = ["C14:price", "C14:alive", "C14:history", "C14:sides", "C14:chain-key-is-lead", "C14:string-key-same-book", "C14:vectors"]
-REQUIRED_CATS = ["quote:one-side-only", "query:sparse", "query:all-keys-every-op", "op:disc", "op:chainq", "op:strq", "quote-after-death", "chain-after-roll"]
+REQUIRED_CATS = ["chain-from-unsorted-list", "quote:one-side-only", "query:sparse", "query:all-keys-every-op", "op:disc", "op:chainq", "op:strq", "quote-after-death", "chain-after-roll"]
 TECHNIQUE = "runtime monitoring: executable reference model (dict of books) compared after every operation of generated histories"
 LEVEL_TEXT = ("Exploration: history + executable model. Every generated quote/discontinuation history is replayed against a small "
               "deterministic model and every observable of every book is compared after each operation.")
@@ -40,6 +40,11 @@ def case(ctx, i, tier):
     AbstractContract.now = datetime.min
     ch = FutureChain(fcls, "2019-01", "2021-12")
     ch1 = FutureChain(fcls, "2019-01", "2021-12", month=1)     # second-month chain over the same contracts
+    if rng.random() < 0.5:
+        listed = list(ch.contracts)
+        rng.shuffle(listed)
+        ch = FutureChain(contracts=listed)                      # same chain given as an unsorted explicit list
+        ctx.cat("chain-from-unsorted-list")
     objs = {"A": ETF("A"), "B": Stock("B"), "I": Index("I"), "SPY": ETF("SPY")}
     for c in ch.contracts:
         objs[c.symbol] = c
